@@ -85,9 +85,6 @@ theorem trialsFor_allTasks (I N C T j : Nat) :
 
 /-! ### decimal digits -/
 
-/-- value of a list of decimal digits, most significant first -/
-def digitsVal (ds : List Nat) : Nat := ds.foldl (fun a d => 10 * a + d) 0
-
 theorem digitsVal_append_single (ds : List Nat) (d : Nat) :
     digitsVal (ds ++ [d]) = 10 * digitsVal ds + d := by
   simp [digitsVal, List.foldl_append]
